@@ -36,13 +36,20 @@ Fail(m, flag, why) == IF m[flag] THEN [m EXCEPT ![flag] = FALSE, !.why[flag] = w
 Check(m, flag, cond, why) == IF cond THEN m ELSE Fail(m, flag, why)
 
 \* ------------------------------------------------------------------ set-up events
+\* a sink created under a name that was used before (the earlier object was destroyed) is a new object - own level, filters,
+\* call counters - but what the earlier object received stays delivered
 ESink(m, e) ==
-  [m EXCEPT !.sk = Upd(m.sk, e.s, [lvl |-> e.lvl, deny |-> {}, denyall |-> FALSE, written |-> <<>>, flushedTo |-> 0,
+  LET old == Has(m.sk, e.s) IN
+  [m EXCEPT !.sk = Upd(m.sk, e.s, [lvl |-> e.lvl, deny |-> {}, denyall |-> FALSE,
+                                   written |-> IF old THEN m.sk[e.s].written ELSE <<>>,
+                                   flushedTo |-> IF old THEN m.sk[e.s].flushedTo ELSE 0,
                                    alive |-> TRUE, held |-> TRUE, tw |-> Range(e.tw), tf |-> Range(e.tf), nw |-> 0, nf |-> 0,
-                                   lost |-> {}, exempt |-> {}])]
+                                   lost |-> IF old THEN m.sk[e.s].lost ELSE {}, exempt |-> IF old THEN m.sk[e.s].exempt ELSE {}])]
 
 ELogger(m, e) ==
-  LET fresh == ~Has(m.lg, e.lg) \/ ~m.lg[e.lg].present IN
+  \* a logger whose removal was requested may have been freed by the backend without the driver having looked: then either answer is possible
+  LET known == Has(m.lg, e.lg) /\ m.lg[e.lg].present
+      fresh == IF known /\ ~m.lg[e.lg].valid THEN e.fresh ELSE ~known IN
   \* C17: creating/looking up by name is idempotent: an existing valid logger is returned unchanged
   LET m1 == Check(m, "ok17", e.fresh = fresh, "create_or_get_logger: fresh/existing mismatch") IN
   IF fresh
@@ -254,21 +261,30 @@ Present(m) == {l \in DOMAIN m.lg : m.lg[l].present}
 Pending(m, l) == {id \in DOMAIN m.st : m.st[id].lg = l /\ \E sname \in Range(m.st[id].sinks) :
                     Deliverable(m, id, sname) /\ ~Delivered(m, id, sname)}
 \* remove_logger_blocking returns only after the removal completed: the registry no longer counts the logger and
-\* everything logged through it before has been written
+\* everything logged through it before has been written. Other loggers whose removal was requested may have been freed by
+\* the same clean-up (all of them, or only those for which the backend found the queues empty): the count lies between
+\* "every invalidated logger gone" and "only this one gone".
 ERemoveBlockingRet(m, e) ==
-  LET still == m.lg[e.lg].present        \* not yet seen gone through an earlier count observation
-      m1 == Check(m, "ok17", e.n = Cardinality(Present(m)) - (IF still THEN 1 ELSE 0) /\ Pending(m, e.lg) = {},
+  LET pres == Present(m)
+      still == m.lg[e.lg].present        \* not yet seen gone through an earlier count observation
+      inval == {l \in pres : ~m.lg[l].valid} \cup (IF still THEN {e.lg} ELSE {})
+      hi == Cardinality(pres) - (IF still THEN 1 ELSE 0)
+      lo == Cardinality(pres) - Cardinality(inval)
+      allGone == e.n = lo
+      m1 == Check(m, "ok17", lo <= e.n /\ e.n <= hi /\ Pending(m, e.lg) = {} /\ (allGone => \A l \in inval : Pending(m, l) = {}),
                   "remove_logger_blocking returned before the removal completed") IN
-  [m1 EXCEPT !.lg[e.lg].present = FALSE]
-\* get_number_of_loggers(): invalidated loggers disappear (all at once in the driver's scripts) only when drained
+  [m1 EXCEPT !.lg = [l \in DOMAIN m.lg |-> IF l = e.lg \/ (allGone /\ l \in inval) THEN [m.lg[l] EXCEPT !.present = FALSE] ELSE m.lg[l]]]
+\* get_number_of_loggers(): invalidated loggers disappear only when drained; a count between "none gone" and "all gone" does
+\* not tell which ones went, so it only has to lie in that range
 ELoggerCount(m, e) ==
   LET pres == Present(m)
-      inval == {l \in pres : ~m.lg[l].valid} IN
+      inval == {l \in pres : ~m.lg[l].valid}
+      lo == Cardinality(pres) - Cardinality(inval) IN
   IF e.n = Cardinality(pres) THEN m
-  ELSE IF e.n = Cardinality(pres) - Cardinality(inval)
+  ELSE IF e.n = lo
   THEN LET m1 == Check(m, "ok17", \A l \in inval : Pending(m, l) = {}, "logger freed before its statements were written") IN
        [m1 EXCEPT !.lg = [l \in DOMAIN m.lg |-> IF l \in inval THEN [m.lg[l] EXCEPT !.present = FALSE] ELSE m.lg[l]]]
-  ELSE Fail(m, "ok17", "number of loggers")
+  ELSE Check(m, "ok17", lo < e.n /\ e.n < Cardinality(pres), "number of loggers")
 \* a blocked call that is still blocked although its queue is empty and the backend idle (C09 end to end)
 EStuck(m, e) == Fail(m, "ok09", "producer still blocked with an empty queue and an idle backend")
 EFlushStuck(m, e) == Fail(m, "ok06", "flush_log does not return although the backend keeps polling")
